@@ -133,11 +133,15 @@ pub fn enumerate_test_cases(
         .all()
         .into_iter()
         .filter(|(_, (_, data))| data.ty == SymbolType::TestCase && data.span.is_some())
-        .map(|(name, (_, data))| {
+        .map(|(name, (nx, data))| {
             let location = ctx.analysis().look_up(data.span.unwrap());
-            (location, name)
+            (location, name, nx)
         })
         .sorted()
+        // A test in an imported file is reachable under its defining scope and under every alias the import
+        // creates: it is one test, and only the defining path (it sorts first) can be made the active test
+        .unique_by(|(_, _, nx)| *nx)
+        .map(|(location, name, _)| (location, name))
         .collect();
     Ok(test_cases)
 }
